@@ -372,6 +372,12 @@ def build_class(prog, rec, W, decorated=True):
             elif t == 'raise_now':
                 raise V.ERRS[s.get('exc', 'Err')]('step %s' % s['sid'])
             elif t == 'interrupt_now':
+                if s.get('exc') == 'SystemExit0':
+                    raise SystemExit(0)       # a graceful-shutdown handler calling sys.exit(0) in the middle of the run
+                if s.get('exc') == 'SystemExit':
+                    raise SystemExit()
+                if s.get('exc') == 'KeyboardInterrupt':
+                    raise KeyboardInterrupt()
                 raise V.Interrupt('step %s' % s['sid'])
             else:
                 raise ValueError(s)
@@ -454,6 +460,16 @@ def build_class(prog, rec, W, decorated=True):
             if prog.get('params_fault') == 'rate_str':
                 kw['sampling_rate'] = '0.25'
             R.recording_params(RecordingParameters(**kw))(cls)
+    if prog.get('derived'):
+        # the operation runs on a subclass of the decorated class (the recording parameters sit on the base)
+        if decorated and not (prog.get('params') or prog.get('params_fault')):
+            from playback.tape_recorder import RecordingParameters
+            R.recording_params(RecordingParameters())(cls)
+        base = cls
+        cls = type(name + 'Derived', (base,), {})
+        cls.__module__ = CLASSES_MODULE
+        setattr(_mod, name + 'Derived', cls)
+        cls._verif_base = base
     W.cls = cls
 
     def inner_run(self):
@@ -491,7 +507,8 @@ def build_class(prog, rec, W, decorated=True):
 
 
 def forget_class(cls):
-    for n in (cls.__name__, cls.__name__ + 'Inner'):
+    base = getattr(cls, '_verif_base', None)
+    for n in (cls.__name__, cls.__name__ + 'Inner') + ((base.__name__, base.__name__ + 'Inner') if base else ()):
         try:
             delattr(_mod, n)
         except AttributeError:
@@ -505,7 +522,7 @@ def execute(cls, prog):
         return ('ret', target.execute())
     except Exception as e:  # pylint: disable=broad-except
         return ('exc', type(e).__name__, e)
-    except V.Interrupt as e:
+    except (V.Interrupt, SystemExit, KeyboardInterrupt) as e:
         return ('interrupt', type(e).__name__, e)
 
 
